@@ -65,7 +65,7 @@ func genIFS(r *rand.Rand) (bool, string) {
 	}
 }
 
-var plain = []string{"a", "b", "c", "x", "1", "é", "€", ":", ",", " ", " ", "\t", "-", "/", ".", "\\", "\\"}
+var plain = []string{"a", "b", "c", "x", "1", "é", "€", ":", ",", " ", " ", "\t", "-", "/", ".", "\\", "\\", "\\ "}
 
 func genLine(r *rand.Rand, ifs string) string {
 	n := r.IntN(9)
@@ -234,6 +234,19 @@ func (k *kase) bashUnreliable() string {
 	if !utf8.ValidString(k.input) || !utf8.ValidString(k.ifs) || strings.ContainsRune(k.ifs, utf8.RuneError) {
 		return "invalid_utf8"
 	}
+	if !k.Raw && !k.Array && k.K >= 1 {
+		// the last name takes a rest of the line that is nothing but (escaped) IFS white space:
+		// bash strips it but leaves a \001 behind
+		env := expand.ListEnviron()
+		if k.IFSSet {
+			env = expand.ListEnviron("IFS=" + k.ifs)
+		}
+		all := expand.ReadFields(&expand.Config{Env: env}, line, -1, false)
+		some := expand.ReadFields(&expand.Config{Env: env}, line, k.K, false)
+		if len(all) > k.K && len(some) == k.K && some[k.K-1] == "" {
+			return "rest_is_escaped_blanks"
+		}
+	}
 	if !k.Raw {
 		prev := rune(0)
 		for _, r := range line {
@@ -323,6 +336,9 @@ var pinned = []struct {
 	{true, " \t\n", "a b", false, false, 2},
 	{true, " \t\n", "", false, false, 2},
 	{true, " \t\n", "a \\", false, false, 1},
+	// the rest of the line consists of escaped blanks only: trimEnd lies before the field's start
+	{true, " \t\n", "a \\  \\ \n", false, false, 2},
+	{true, " \t\n", "\\  \\ \n", false, false, 1},
 }
 
 func main() {
